@@ -585,13 +585,14 @@ theorem htltClaimIncoming_only_overflow {a : AssetParam} (ha : AssetOk a) (s : S
   · exact incrementCurrent_only_overflow ha _ amt k h
 
 
+/-- supply counters below 2^130 (four times the amount bound 2^128) -/
 structure SupplySmall (s : Supply) : Prop where
-  inc : 0 ≤ s.incoming ∧ s.incoming < pow2_128
-  out : 0 ≤ s.outgoing ∧ s.outgoing < pow2_128
-  cur : 0 ≤ s.current ∧ s.current < pow2_128
-  tlc : 0 ≤ s.timeLimitedCurrent ∧ s.timeLimitedCurrent < pow2_128
+  inc : 0 ≤ s.incoming ∧ s.incoming < 4 * pow2_128
+  out : 0 ≤ s.outgoing ∧ s.outgoing < 4 * pow2_128
+  cur : 0 ≤ s.current ∧ s.current < 4 * pow2_128
+  tlc : 0 ≤ s.timeLimitedCurrent ∧ s.timeLimitedCurrent < 4 * pow2_128
 
-theorem addP_small {a b : Int} (ha : 0 ≤ a ∧ a < 2 * pow2_128) (hb : 0 ≤ b ∧ b < 2 * pow2_128) :
+theorem addP_small {a b : Int} (ha : 0 ≤ a ∧ a < 16 * pow2_128) (hb : 0 ≤ b ∧ b < 16 * pow2_128) :
     addP a b = .ok (a + b) := by
   apply addP_ok
   · omega
